@@ -1,5 +1,7 @@
 //! vx_witness: small-scope witness finder for the interval-set code of yrs
 //! (`IdRanges<T>` driven through `yrs::IdSet` and `yrs::IdMap<u8>`).
+//! Further targets (awareness register, y-sync messages, snapshots,
+//! state-vector synchronisation) live in ext.rs / proto.rs / docs.rs.
 //! See README.md.
 
 mod docs;
